@@ -8,6 +8,7 @@ mod lazy_engine;
 mod read_paths;
 mod crash_engine;
 mod sched_engine;
+mod openlock_engine;
 
 fn main() {
     let args = common::Args(std::env::args().skip(1).collect());
@@ -20,6 +21,7 @@ fn main() {
         Some("lazy") => lazy_engine::main(&args),
         Some("crash") => crash_engine::main(&args),
         Some("sched") => sched_engine::main(&args),
+        Some("openlock") => openlock_engine::main(&args),
         _ => {
             eprintln!("usage: harness <engine> …");
             2
